@@ -132,6 +132,31 @@ func (u *Universe) computeRenames() {
 			}
 		}
 	}
+	// functions the baseline does not know (and that are not renamed baseline functions)
+	u.newFuncObjs = map[*types.Func]bool{}
+	if len(baseline.Funcs) > 0 {
+		for k := range cur.Funcs {
+			if _, known := baseline.Funcs[k]; known {
+				continue
+			}
+			parts := strings.SplitN(k, "|", 3)
+			hasPkg := false
+			for bk := range baseline.Funcs {
+				if strings.HasPrefix(bk, parts[0]+"|") {
+					hasPkg = true
+					break
+				}
+			}
+			if !hasPkg {
+				continue
+			}
+			if obj := u.funcObjExact(parts[0], parts[1], parts[2]); obj != nil {
+				if _, renamed := funcOldName[obj]; !renamed {
+					u.newFuncObjs[obj] = true
+				}
+			}
+		}
+	}
 	// fields
 	for k, old := range baseline.Fields {
 		now, ok := cur.Fields[k]
